@@ -211,6 +211,33 @@ type c13Env struct {
 	// cmp names an equality between non-integer values (base of the atom "l == r", "" = not nameable); the
 	// operands are passed as written, in either order
 	cmp func(env *c13Env, l, r ast.Expr) string
+	// expand replaces atoms of a linear form that stand for a whole linear form (a stable local defined as
+	// `len(xs) - 1`, named by `custom` with a placeholder) by that form; nil = forms are final
+	expand func(*core.Lin) *core.Lin
+}
+
+// c13ExpandCmp applies the environment's expansion to a normalised comparison and restores the canonical
+// sign of equalities (first sorted term positive), exactly as core.NormLinCmp leaves them.
+func c13ExpandCmp(lc core.LinCmp, expand func(*core.Lin) *core.Lin) core.LinCmp {
+	f := expand(lc.Form)
+	if f == nil || f == lc.Form {
+		return lc
+	}
+	if lc.Op == "==" || lc.Op == "!=" {
+		keys := make([]string, 0, len(f.Coef))
+		for k := range f.Coef {
+			keys = append(keys, k)
+		}
+		sort.Strings(keys)
+		if len(keys) > 0 && f.Coef[keys[0]].Sign() < 0 || len(keys) == 0 && f.C.Sign() < 0 {
+			n := &core.Lin{Coef: map[string]*big.Int{}, Atom: map[string]ast.Expr{}, C: new(big.Int).Neg(f.C)}
+			for k, cf := range f.Coef {
+				n.Coef[k], n.Atom[k] = new(big.Int).Neg(cf), f.Atom[k]
+			}
+			f = n
+		}
+	}
+	return core.LinCmp{Form: f, Op: lc.Op}
 }
 
 var c13Getters = map[string]string{"Seq": "seq", "Epoch": "epoch", "Frame": "frame", "Lamport": "lamport", "Creator": "creator"}
@@ -764,6 +791,9 @@ func (env *c13Env) atomOf(ft core.Fact) c13Atom {
 		}
 	}
 	if lc, ok := core.NormLinCmp(info, ft, env.atom); ok {
+		if env.expand != nil {
+			lc = c13ExpandCmp(lc, env.expand)
+		}
 		return c13LinAtom(lc)
 	}
 	return c13Atom{base: "?" + exprStr(ft.Expr)}
